@@ -230,4 +230,32 @@ def buildSpec (cfg : Cfg) (evs : List Ev) : List Doc :=
   | [root] => root.kids
   | _ => []
 
+/-! ## parsing strategies (`BeautifulSoup.__init__`, bs4/__init__.py:468-486) and the empty-element rule -/
+
+/-- one parsing strategy offered by `builder.prepare_markup`: the events the builder sent while being fed, and whether it then gave up
+    with `ParserRejectedMarkup` (what the lxml builders do per candidate encoding) -/
+structure Attempt where
+  evs : List Ev
+  rejected : Bool
+
+/-- `for (…) in self.builder.prepare_markup(…): self.reset(); self.builder.initialize_soup(self); try: self._feed(); success = True; break
+    except ParserRejectedMarkup: pass` — the state `st` left behind by the previous iteration is carried into the next one exactly as
+    the object's fields are; `none` = every strategy was rejected (ParserRejectedMarkup is raised to the caller) -/
+def parseLoop (cfg : Cfg) (st : St) : List Attempt → Option (List Doc)
+  | [] => none
+  | a :: rest =>
+    let _ := st
+    let st0 := St.init cfg                         -- self.reset(): whatever `st` held is dropped
+    let st1 := run cfg st0 a.evs
+    if a.rejected then parseLoop cfg st1 rest
+    else some (result (finish cfg st1))
+
+/-- `TreeBuilder.can_be_empty_element` (bs4/builder/__init__.py:283-296): `if self.empty_element_tags is None: return True` —
+    `none` (no rule configured) makes every tag a potential void element, a configured collection, the EMPTY one included,
+    exactly its members -/
+def canBeEmptyElement (emptyTags : Option (List Name)) (name : Name) : Bool :=
+  match emptyTags with
+  | none => true
+  | some l => l.contains name
+
 end BS.Builder
